@@ -106,7 +106,17 @@ Theorem C06_parents_before_insertion :
 Proof. exact parents_before_insertion. Qed.
 Print Assumptions C06_parents_before_insertion.
 
+Theorem C06_bootstrap_insertion :
+  forall pre s suf, shielded s [] suf = true -> first_ok s (rev pre) suf = true -> bootstrap_parents (pre ++ s :: suf) = firstn (length pre) (bootstrap_parents (pre ++ suf)) ++ [spec_parent (rev pre) s] ++ map (shift (length pre)) (skipn (length pre) (bootstrap_parents (pre ++ suf))).
+Proof. exact bootstrap_insertion. Qed.
+Print Assumptions C06_bootstrap_insertion.
+
 Theorem C06_insert_before_shallower_command :
   forall pre s suf, match suf with [] => True | l :: _ => cfg l = true /\ cmt l = false /\ ind l < ind s end -> shielded s [] suf = true /\ first_ok s (rev pre) suf = true.
 Proof. exact insert_before_shallower_command. Qed.
 Print Assumptions C06_insert_before_shallower_command.
+
+Theorem C06_insertion_after_family_preserves_parents :
+  forall pre s suf, match suf with [] => True | l :: _ => cfg l = true /\ cmt l = false /\ ind l < ind s end -> spec_parents (pre ++ s :: suf) = spec_parents pre ++ [spec_parent (rev pre) s] ++ map (shift (length pre)) (spec_from (rev pre) suf).
+Proof. exact insertion_after_family_preserves_parents. Qed.
+Print Assumptions C06_insertion_after_family_preserves_parents.
